@@ -10,12 +10,27 @@ type rtcase = {
   defs : (n list list * n list * bool) list;       (* raw methods, raw path, nil handler *)
   qs : (string * n list * n list) list;            (* kind, method, path *)
   adds : (int * (n list list * n list * bool)) list;   (* query index -> definition registered at that point ("a" queries) *)
+  gvars : (n list * n list) list;                     (* SetGlobalVar(name, regex) calls made before the registrations *)
 }
+
+(* SetGlobalVar(name, regex): a variable written {name} (no regex of its own) now stands for {name:regex}. The Coq model's
+   global-variable table is the constant default one (checked against rux by the constants correspondence), so this glue
+   rewrites the pattern text before it reaches the model (names are fresh: they are not in the default table). *)
+let rec has_prefix_l p l = match p, l with [] , _ -> true | _, [] -> false | a :: p', b :: l' -> a = b && has_prefix_l p' l'
+let rec drop k l = if k = 0 then l else match l with [] -> [] | _ :: r -> drop (k - 1) r
+let subst_gvars gvars (path : n list) : n list =
+  List.fold_left (fun path (name, re) ->
+      let pat = (n_of_int 123 :: name) @ [n_of_int 125] in
+      let rep = (n_of_int 123 :: name) @ (n_of_int 58 :: re) @ [n_of_int 125] in
+      let rec go l = match l with
+        | [] -> []
+        | x :: r -> if has_prefix_l pat l then rep @ go (drop (List.length pat) l) else x :: go r in
+      go path) path gvars
 
 let parse_case = function
   | L [A "rt"; L os; L ds; L qs] ->
     let strict = ref false and na = ref false and fb = ref false and caching = ref false and cap = ref 1000
-    and icpt = ref [] and nf = ref false and nal = ref false and late = ref false and grp = ref None in
+    and icpt = ref [] and nf = ref false and nal = ref false and late = ref false and grp = ref None and gv = ref [] in
     List.iter (function
         | L [A "strict"] -> strict := true
         | L [A "na"] -> na := true
@@ -26,12 +41,13 @@ let parse_case = function
         | L [A "nal"] -> nal := true
         | L [A "group"; p] -> grp := Some (str p)   (* every definition is registered inside r.Group(p, ...) *)
         | L [A "lateopt"] -> late := true       (* Router.WithOptions(<no-op option>) after the registrations *)
+        | L (A "gvar" :: nm :: re :: _) -> gv := !gv @ [(str nm, str re)]    (* (an optional 4th element: an earlier definition) *)
         | x -> failwith ("rt: bad option " ^ to_string x)) os;
     { o = { o_strict = !strict; o_na = !na; o_fallback = !fb; o_caching = !caching; o_cap = nat_of_int !cap; o_intercept = !icpt };
-      custom_nf = !nf; custom_na = !nal; lateopt = !late; group = !grp;
-      defs = List.map (function L [L ms; p; nh] -> (List.map str ms, str p, bool nh) | x -> failwith ("rt: bad def " ^ to_string x)) ds;
+      custom_nf = !nf; custom_na = !nal; lateopt = !late; group = !grp; gvars = !gv;
+      defs = List.map (function L [L ms; p; nh] -> (List.map str ms, subst_gvars !gv (str p), bool nh) | x -> failwith ("rt: bad def " ^ to_string x)) ds;
       qs = List.map (function L [A "a"; L _; p; _] -> ("a", [], str p) | L [A k; m; p] -> (k, str m, str p) | x -> failwith ("rt: bad query " ^ to_string x)) qs;
-      adds = List.concat (List.mapi (fun i q -> match q with L [A "a"; L ms; p; nh] -> [(i, (List.map str ms, str p, bool nh))] | _ -> []) qs) }
+      adds = List.concat (List.mapi (fun i q -> match q with L [A "a"; L ms; p; nh] -> [(i, (List.map str ms, subst_gvars !gv (str p), bool nh))] | _ -> []) qs) }
   | x -> failwith ("rt: bad case " ^ to_string x)
 
 (* one definition: the new router and the stored definition, None when the registration panics *)
@@ -225,7 +241,8 @@ let c02_judge cs obs =
              | None -> if to_string ps_obs = "nil" then "ok" else "bad static-route-exposes-params got=" ^ to_string ps_obs
              | Some pt ->
                (match pat_params pt path with
-                | None -> "ok"     (* the selected route does not match: C01's business *)
+                | None -> "bad value-does-not-satisfy-the-pattern path=" ^ atom_of_str path ^ " got=" ^ to_string ps_obs
+                  (* the selected route's pattern does not match the path at all: some captured value violates its regex *)
                 | Some ps ->
                   let exp = sparams (Some ps) in
                   if to_string exp = to_string ps_obs then "ok"
